@@ -30,6 +30,11 @@ CHECKS = {
     technique="TLA+ canonical text form (Text.tla) with print-injectivity checked by TLC; TLC-enumerated vectors printed by the real printer and parsed by the real parser; text->binary->text on grouped subroutines",
     text="TLC explores ir -> text -> back over field-wise vectors of every class of every flavour (negative integers, entries, slices) and checks that the canonical text determines the instruction; for each vector the real str(instr) and the canonical text are parsed by the real parser with a long-lived and a fresh flavour object (another flavour being constructed in between) and must give an equal instruction of the same class; groups of 16 instructions go through text -> binary -> text.",
     note="Trusted: TLC, harness/eng_text.py; the real printer is judged only by the real parser."),
+ "C04": dict(
+    engine="machine", category="model_checking", design="5 C04",
+    technique="TLA+ machine semantics (Machine.tla); TLC explores all programs <=N instrs (MachineMC) whose runs are replayed on the real executor; real step-by-step executions validated by TLC trace checking (MachineTrace)",
+    text="spec->code: TLC builds every program of <=3 (quick) / <=4 (thorough) instructions over an alphabet with unstructured jump targets, runs it on Machine with a step bound, checks the machine invariants (used = mapped, injective unit module, fault leaves state untouched, shared registers only written by ret_reg) and prints each finished run, which the rig replays on the real Executor comparing the pc sequence and the final state. code->spec: systematic suffixes after a setup prefix, two-subroutine histories and random programs (<=40 instrs) are executed on the real Executor one instruction at a time; the projected state after every step (registers, arrays, shared memory, unit module, used set, pc, status, fault line) is validated by TLC as a behaviour of Machine, with a total verdict per case.",
+    note="Trusted: TLC, harness/rig.py projection. Unspecified situations (arithmetic/branch on undefined registers, negative indices) are accepted and not counted. Gate/measure hooks are the rig's (scripted outcomes)."),
 }
 
 REASON_TODO = "check not built yet (work in progress; see DESIGN.md section 9)"
